@@ -136,12 +136,64 @@ def run(ctx, replay=None):
                 exp = np.asarray(V.experimental, float)
                 fresh = st.build(dict(case, maxlag=newml))
                 ef = np.asarray(fresh.experimental, float)
-                if len(exp) != len(ef) or not all(gen.close(a, b, 1e-12) for a, b in zip(exp, ef)) or not np.allclose(V.xbins, fresh.xbins):
+                if len(exp) != len(ef) or not all(gen.close(a, b, 1e-12) for a, b in zip(exp, ef)) or not np.allclose(V.xbins, fresh.xbins, equal_nan=True):
                     ctx.problem('oracle', 'after assigning maxlag on an evaluated instance the table differs from a fresh instance', dict(case, new_maxlag=newml),
                                 {'inplace': exp.tolist()[:8], 'fresh': ef.tolist()[:8]}, {'what': 'st-inplace-maxlag'})
                 ctx.tests['inplace_maxlag_runs'] = ctx.tests.get('inplace_maxlag_runs', 0) + 1
             except Exception as e:
                 ctx.count('inplace_rejected', type(e).__name__)
+        # ---- other settings assigned on an evaluated instance: the table is the table of a fresh instance with those settings
+        for case in cases[: (40 if not ctx.thorough() else 400)]:
+            op = rng.choice(['x_lags', 't_lags', 'xbins', 'tbins', 'estimator', 'values', 'xdist', 'tdist'])
+            rule_based = case['xbins'] not in ('even', 'uniform')
+            if rule_based and op in ('x_lags', 'xbins'):
+                continue          # the class count of a rule-based binning is derived; assigning one has no fresh counterpart
+            over, c2 = {}, case
+            try:
+                V = st.build(case)
+                _ = V.experimental
+                if op == 'x_lags':
+                    nv = rng.randint(1, 5)
+                    V.x_lags = nv
+                    over = {'x_lags': nv}
+                elif op == 't_lags':
+                    nv = rng.randint(1, 3)
+                    V.t_lags = nv
+                    over = {'t_lags': nv}
+                elif op == 'xbins':
+                    nv = 'uniform' if case['xbins'] == 'even' else 'even'
+                    V.xbins = nv
+                    over = {'xbins': nv}
+                elif op == 'tbins':
+                    nv = 'uniform' if case['tbins'] == 'even' else 'even'
+                    V.tbins = nv
+                    over = {'tbins': nv}
+                elif op == 'estimator':
+                    nv = rng.choice([e_ for e_ in ('matheron', 'cressie', 'dowd') if e_ != case['estimator']])
+                    V.set_estimator(nv)
+                    over = {'estimator': nv}
+                elif op == 'values':
+                    nv = (np.array(case['values'], float) * 2.0 + 1.0).tolist()
+                    V.values = np.array(nv)
+                    c2 = dict(case, values=nv)
+                elif op == 'xdist':
+                    V.set_xdist_func('cityblock')
+                    over = {'xdist_func': 'cityblock'}
+                else:
+                    V.set_tdist_func('chebyshev')
+                    over = {'tdist_func': 'chebyshev'}
+                exp = np.asarray(V.experimental, float)
+                xb, tb = np.asarray(V.xbins, float), np.asarray(V.tbins, float)
+                fresh = st.build(c2, **over)
+                ef = np.asarray(fresh.experimental, float)
+                if (len(exp) != len(ef) or not all(gen.close(a, b, 1e-12) for a, b in zip(exp, ef)) or not np.allclose(xb, fresh.xbins, equal_nan=True)
+                        or not np.allclose(tb, fresh.tbins, equal_nan=True)):
+                    ctx.problem('oracle', 'after assigning %s on an evaluated instance the table / the lag edges differ from a fresh instance with that setting' % op, dict(case, assigned=dict(over, op=op)),
+                                {'inplace': exp.tolist()[:8], 'fresh': ef.tolist()[:8], 'xbins': xb.tolist(), 'fresh_xbins': np.asarray(fresh.xbins, float).tolist()}, {'what': 'st-inplace', 'setter': op})
+                ctx.count('inplace_setter', op)
+                ctx.tests['inplace_setter_runs'] = ctx.tests.get('inplace_setter_runs', 0) + 1
+            except Exception as e:
+                ctx.count('inplace_rejected', op + ':' + type(e).__name__)
         vc.run_golden(ctx, coq, model)
     finally:
         model.close()
